@@ -306,14 +306,15 @@ func c04VerifySig(q c04SigReq, ks *c04KeySet, now, tol int64) (int, string) {
 
 var c04SigValid = []c04Weighted{{"valid", 10}, {"valid-encrypted-body", 4}, {"valid-ts-near-past-edge", 4},
 	{"valid-ts-near-future-edge", 4}, {"valid-multiblock-secret", 3}, {"valid-x-request-uri", 3},
-	{"valid-secret-by-codec-encryptor", 3}}
+	{"valid-secret-by-codec-encryptor", 3},
+	{"valid-ts-unusual-spelling", 3}}
 
 var c04SigInvalid = []c04Weighted{{"tamper-method", 5}, {"tamper-path", 5}, {"tamper-query", 5}, {"tamper-body", 6},
 	{"tamper-timestamp", 5}, {"tamper-signature", 5}, {"signature-of-other-request", 3}, {"tamper-key", 4},
 	{"fingerprint-unknown", 3}, {"fingerprint-of-other-key", 3}, {"secret-from-unknown-keypair", 2}, {"secret-garbage", 2},
 	{"secret-not-base64", 2}, {"header-missing", 3}, {"header-field-missing", 3}, {"timestamp-not-numeric", 2},
 	{"ts-too-old", 6}, {"ts-too-new", 6}, {"x-request-uri-differs-from-signed", 3}, {"signed-url-but-x-request-uri-says-other", 2},
-	{"encrypted-signed-over-plaintext", 3}, {"secret-key-not-base64", 2},
+	{"encrypted-signed-over-plaintext", 3}, {"secret-key-not-base64", 2}, {"tamper-timestamp-spelling", 4},
 	// not asserted (observed only): outside the statement
 	{"secret-type-not-numeric", 1}, {"encrypted-body-not-decodable", 2}, {"x-request-uri-unparsable", 1}}
 
@@ -448,6 +449,11 @@ func c04GenSig(r *rand.Rand, class string, ks *c04KeySet, prefix string, now, to
 		}
 	}
 	s.ts = strconv.FormatInt(ts, 10)
+	// legal but unusual decimal spellings of the same instant (strconv.ParseInt takes them)
+	respell := func(t string) string { return []string{"0", "+", "00", "+0", "0000000"}[r.Intn(5)] + t }
+	if class == "valid-ts-unusual-spelling" { // signed exactly as sent: the HMAC covers the field as sent
+		s.ts = respell(s.ts)
+	}
 	s.sent = s.plain
 	if s.typ == "1" {
 		ct, err := c04AesEcbEncrypt(s.key, s.plain)
@@ -475,7 +481,7 @@ func c04GenSig(r *rand.Rand, class string, ks *c04KeySet, prefix string, now, to
 	}
 	switch class {
 	case "valid", "valid-encrypted-body", "valid-ts-near-past-edge", "valid-ts-near-future-edge", "valid-multiblock-secret",
-		"valid-secret-by-codec-encryptor":
+		"valid-secret-by-codec-encryptor", "valid-ts-unusual-spelling":
 		return q
 	case "valid-x-request-uri": // signed for the public URL; the request arrives rewritten
 		q.ReqURI = uri(s.path, s.query)
@@ -584,6 +590,8 @@ func c04GenSig(r *rand.Rand, class string, ks *c04KeySet, prefix string, now, to
 			ts2 = ts - 1 - int64(r.Intn(5))
 		}
 		q.CS = c04Header(s.fp, s.secret(r, s.key, strconv.FormatInt(ts2, 10)), sig)
+	case "tamper-timestamp-spelling": // same instant, other spelling than the one that was signed
+		q.CS = c04Header(s.fp, s.secret(r, s.key, respell(s.ts)), sig)
 	case "tamper-signature":
 		raw := c04SigMac(s.key, c04SigMessage(s.ts, s.method, s.path, s.query, s.sent))
 		switch r.Intn(4) {
